@@ -1389,7 +1389,18 @@ func genWin(r *hx.Rand, rolling bool) *winCase {
 		}
 		w.Reqs = append(w.Reqs, q)
 	}
-	switch r.Intn(3) {
+	switch r.Intn(4) {
+	case 3: // rejected early in the NEXT window by the carried-over count alone, then retried after its Retry-After
+		w.Reqs = w.Reqs[:0]
+		for i, n := 0, w.Limit+r.Range(1, 2); i < n; i++ {
+			q := winReq{Key: "a"}
+			if i == 0 {
+				q.SleepToNextWindow, q.OffsetMs = true, r.Range(300, w.W*1000-300)
+			}
+			w.Reqs = append(w.Reqs, q)
+		}
+		w.Reqs = append(w.Reqs, winReq{Key: "a", SleepToNextWindow: true, OffsetMs: r.Range(10, 120)})
+		w.Reqs = append(w.Reqs, winReq{Key: "a", RetryOf: len(w.Reqs)})
 	case 0: // next window, somewhere inside it
 		n2 := r.Range(1, w.Limit+1)
 		for i := 0; i < n2; i++ {
@@ -1635,7 +1646,7 @@ func main() {
 		r := hx.NewRand(a.Seed)
 		st := hx.NewStats()
 		// rolling-window cases sleep on the wall clock: run them concurrently while the rest is generated
-		nRoll := 24
+		nRoll := 36
 		if a.Tier == "thorough" {
 			nRoll = 96
 		}
